@@ -84,6 +84,31 @@ def h_charge(eng, ff=0, ligand=0):
     eng.check(Implies(frac == 0, And(exc is None, len(pq) == 1)), "integral-charge-succeeds", note=f"integral total charge but run raised {type(exc).__name__ if exc else None}")
 
 
+def h_unreadable_record(eng):
+    """failure side, parsing stage: an ATOM/HETATM record whose numeric field cannot be read (overflow asterisks, text, a
+    doubled decimal point - in the residue number or a coordinate) makes the real read_pdb raise; it is not skipped, so no
+    structure silently lacking that atom is processed and written (field, garbage and record type are selectors)"""
+    import io as _io
+
+    from pdb2pqr import pdb
+
+    rec = ["ATOM  ", "HETATM"][eng.choice("record", 2)]
+    field = eng.choice("field", 4)  # residue number, x, y, z
+    g = eng.choice("garbage", 5)
+    junk = (["****", "1.2.", " abc", "1,23", "--1 "] if field == 0 else ["********", " 1.2.3  ", "   abc  ", "  12,345", "  --1.0 "])[g]
+    good = f"{rec}{7:5d}  CA  SER A{20:4d}    {11.104:8.3f}{6.134:8.3f}{-6.504:8.3f}  1.00  0.00           C  "
+    a, b = [(22, 26), (30, 38), (38, 46), (46, 54)][field]
+    bad = good[:a] + junk[: b - a].ljust(b - a) + good[b:]
+    lines = ["HEADER    TEST", good.replace("  CA ", "  N  ", 1).replace(f"{7:5d}", f"{6:5d}", 1), bad, "TER", "END"]
+    try:
+        recs, _errs = pdb.read_pdb(_io.StringIO("\n".join(lines) + "\n"))
+    except (ValueError, IndexError, KeyError) as e:
+        eng.check(True, "unreadable-record-fails-loudly", note=type(e).__name__)
+        return
+    n = len([r for r in recs if isinstance(r, (pdb.ATOM, pdb.HETATM))])
+    eng.check(False, "unreadable-record-fails-loudly", note=f"read_pdb returned normally with {n} coordinate records for a file whose second {rec.strip()} record has {junk!r} in {['the residue number', 'x', 'y', 'z'][field]}: {bad!r}")
+
+
 def h_options(eng):
     """every unusable option / file combination is refused before any work"""
     w = flow.World(eng, "r", False, {}, [])
@@ -298,7 +323,7 @@ def obligations(tier):
         Obligation("ligand-charge-ff0", h_ligand_charge, dict(ff=0), group="charge", time_cap=1200),
     ]
     for ff in FFS:
-        obs.append(Obligation(f"success-amino-{ff}", table_success, dict(ff=ff, residues=AMINO if tier == "thorough" else AMINO[::3] + ["GLY", "PRO", "HIS"], kind="amino"), kind="table", group="success"))
+        obs.append(Obligation(f"success-amino-{ff}", table_success, dict(ff=ff, residues=AMINO if tier == "thorough" else AMINO[::3] + ["GLY", "PRO", "HIS", "CYS"], kind="amino"), kind="table", group="success"))
         obs.append(Obligation(f"success-water-{ff}", table_success, dict(ff=ff, residues=["WAT"], kind="water"), kind="table", group="success"))
     from . import c02
 
@@ -316,7 +341,8 @@ def obligations(tier):
     for ws in (False, True):
         for focus in (("x", "radius"), ("y", "radius"), ("z", "charge")):
             obs.append(Obligation(f"apbs-sizing-reads-written-pqr-{'+'.join(focus)}-{'ws' if ws else 'fixed'}", c17.h_parse, dict(focus=list(focus), ws=ws, kc=False, header="remark-text", natoms=2, first_small=True, sym_first=False, loud_only=True), group="apbs-sizing", time_cap=1200))
-    obs.append(Obligation("success-amino-parse-neutral-termini", table_success, dict(ff="parse", residues=AMINO if tier == "thorough" else AMINO[::3] + ["GLY", "PRO", "HIS"], kind="amino", neutral=True), kind="table", group="success"))
+    obs.append(Obligation("unreadable-atom-record", h_unreadable_record, {}, group="unreadable", time_cap=600))
+    obs.append(Obligation("success-amino-parse-neutral-termini", table_success, dict(ff="parse", residues=AMINO if tier == "thorough" else AMINO[::3] + ["GLY", "PRO", "HIS", "CYS"], kind="amino", neutral=True), kind="table", group="success"))
     return obs
 
 
